@@ -1383,4 +1383,595 @@ theorem outputs_geometry' (t : Tree) (hw : wf t = true) (q : List Nat) (b : Tree
   simp only [layout, List.nil_append] at this hsh g4 a1
   omega
 
+-- ---------------------------------------------------------------- borders
+inductive Side | left | right | top | bottom
+deriving DecidableEq, Repr
+
+def PCell.border (x : PCell) : Side → Border
+  | .left => x.bl | .right => x.br | .top => x.bt | .bottom => x.bb
+def PCell.edge (x : PCell) : Side → Nat
+  | .left => x.col | .right => x.col + x.cols | .top => x.row | .bottom => x.row + x.rows
+def Rect.edge (R : Rect) : Side → Nat
+  | .left => R.left | .right => R.right | .top => R.top | .bottom => R.bottom
+/-- the border a cell is created with -/
+def initBorder (k : CellKind) (s : Side) : Border := if k = .outputs ∧ s ≠ .left then .none else .normal
+
+/-- side `s` of `x` lies on side `s` of the region of some node of `O` above `x` -/
+def Al (cs : List PCell) (O : List Nat → Prop) (x : PCell) (s : Side) : Prop :=
+  ∃ q, O q ∧ q <+: x.path ∧ x.edge s = (reg cs q).edge s
+
+/-- the borders of `cs` are right when `O` is the set of outlined nodes -/
+structure BOK (cs : List PCell) (O : List Nat → Prop) : Prop where
+  til : ∀ q, O q → RTiles (cs.filter (under q)) (reg cs q)
+  sub : ∀ x ∈ cs, ∀ s, Al cs O x s → x.border s = .subRecipe
+  ini : ∀ x ∈ cs, ∀ s, ¬ Al cs O x s → x.border s = initBorder x.kind s
+
+theorem BOK.congr {cs : List PCell} {O O' : List Nat → Prop} (h : BOK cs O) (e : ∀ q, O q ↔ O' q) : BOK cs O' := by
+  have : O = O' := funext fun q => propext (e q)
+  rw [← this]; exact h
+
+theorem BOK.map_geo {cs : List PCell} {O : List Nat → Prop} (h : BOK cs O) (f : PCell → PCell) (g : Rect → Rect)
+    (hp : ∀ x, (f x).path = x.path) (hk : ∀ x, (f x).kind = x.kind) (hb : ∀ x s, (f x).border s = x.border s)
+    (ht : ∀ q, O q → RTiles ((cs.filter (under q)).map f) (g (reg cs q)))
+    (he : ∀ x ∈ cs, ∀ q, O q → q <+: x.path → ∀ s,
+      ((f x).edge s = (g (reg cs q)).edge s ↔ x.edge s = (reg cs q).edge s)) :
+    BOK (cs.map f) O := by
+  have hreg : ∀ q, O q → reg (cs.map f) q = g (reg cs q) := by
+    intro q hq
+    simp only [reg]; rw [filter_under_map _ f _ hp]; exact (ht q hq).bbox_eq
+  have hal : ∀ x ∈ cs, ∀ s, Al (cs.map f) O (f x) s ↔ Al cs O x s := by
+    intro x hx s
+    constructor
+    · rintro ⟨q, hq, hpre, hed⟩
+      rw [hp] at hpre
+      rw [hreg q hq] at hed
+      exact ⟨q, hq, hpre, (he x hx q hq hpre s).1 hed⟩
+    · rintro ⟨q, hq, hpre, hed⟩
+      refine ⟨q, hq, by rw [hp]; exact hpre, ?_⟩
+      rw [hreg q hq]; exact (he x hx q hq hpre s).2 hed
+  refine ⟨?_, ?_, ?_⟩
+  · intro q hq
+    rw [hreg q hq, filter_under_map _ f _ hp]; exact ht q hq
+  · intro y hy s ha
+    obtain ⟨x, hx, rfl⟩ := List.mem_map.1 hy
+    rw [hb]; exact h.sub x hx s ((hal x hx s).1 ha)
+  · intro y hy s ha
+    obtain ⟨x, hx, rfl⟩ := List.mem_map.1 hy
+    rw [hb, hk]; exact h.ini x hx s (fun ha' => ha ((hal x hx s).2 ha'))
+
+theorem BOK.shiftDown {cs : List PCell} {O : List Nat → Prop} (h : BOK cs O) (d : Nat) :
+    BOK (cs.map (RG.shiftDown d)) O := by
+  apply h.map_geo (RG.shiftDown d) (fun R => ⟨R.top + d, R.left, R.bottom + d, R.right⟩)
+    (fun _ => rfl) (fun _ => rfl) (fun x s => by cases s <;> rfl)
+  · intro q hq; exact (h.til q hq).shiftDown d
+  · intro x _ q _ _ s
+    cases s <;> simp only [PCell.edge, Rect.edge, RG.shiftDown] <;> omega
+
+theorem RTiles.right_le {cs : List PCell} {R : Rect} (h : RTiles cs R) (w0 : Nat)
+    (hc : ∀ x ∈ cs, x.col + x.cols ≤ w0) : R.right ≤ w0 := by
+  have hne := h.ne
+  obtain ⟨x, hx, hcv⟩ := h.exists_covering R.top (R.right - 1) (by omega) (by omega) (by omega) (by omega)
+  have := hc x hx
+  omega
+
+theorem padEdge_inj (w0 w a b : Nat) (ha : a ≤ w0) (hb : b ≤ w0) (hw : w0 ≤ w) :
+    padEdge w0 w a = padEdge w0 w b ↔ a = b := by
+  unfold padEdge; split <;> split <;> omega
+
+theorem BOK.padCell {cs : List PCell} {O : List Nat → Prop} (h : BOK cs O) (w0 w : Nat) (hw : w0 < w)
+    (hc : ∀ x ∈ cs, 0 < x.cols ∧ x.col + x.cols ≤ w0) : BOK (cs.map (RG.padCell w0 w)) O := by
+  have hR : ∀ q, O q → (reg cs q).right ≤ w0 := fun q hq =>
+    (h.til q hq).right_le w0 (fun x hx => (hc x (List.mem_filter.1 hx).1).2)
+  apply h.map_geo (RG.padCell w0 w) (fun R => ⟨R.top, R.left, R.bottom, padEdge w0 w R.right⟩)
+    (fun x => (padCell_geo' w0 w x).1) (fun x => (padCell_geo' w0 w x).2.1)
+  · intro x s; unfold RG.padCell; split <;> cases s <;> rfl
+  · intro q hq; exact (h.til q hq).pad w0 w (hR q hq) hw
+  · intro x hx q hq _ s
+    have g := padCell_geo w0 w x (hc x hx).1 (hc x hx).2 hw
+    have := padEdge_inj w0 w (x.col + x.cols) (reg cs q).right (hc x hx).2 (hR q hq) (by omega)
+    cases s <;> simp only [PCell.edge, Rect.edge] <;> omega
+
+theorem BOK.pad {T : Tbl} {O : List Nat → Prop} (h : BOK T.cells O) (hg : Good T) (w : Nat) :
+    BOK (RG.pad T w).cells O := by
+  unfold RG.pad
+  split
+  · exact h
+  · exact h.padCell T.w w (by omega) (fun x hx => by have := hg.ok x hx; simp only at this; omega)
+
+theorem reg_append_left {a b : List PCell} {q : List Nat} (h : ∀ y ∈ b, ¬ q <+: y.path) :
+    reg (a ++ b) q = reg a q := by
+  simp only [reg, List.filter_append, filter_under_eq_nil h, List.append_nil]
+theorem reg_append_right {a b : List PCell} {q : List Nat} (h : ∀ y ∈ a, ¬ q <+: y.path) :
+    reg (a ++ b) q = reg b q := by
+  simp only [reg, List.filter_append, filter_under_eq_nil h, List.nil_append]
+
+theorem BOK.append {a b : List PCell} {Oa Ob : List Nat → Prop} (ha : BOK a Oa) (hb : BOK b Ob)
+    (h1 : ∀ q, Oa q → ∀ y ∈ b, ¬ q <+: y.path) (h2 : ∀ q, Ob q → ∀ x ∈ a, ¬ q <+: x.path) :
+    BOK (a ++ b) (fun q => Oa q ∨ Ob q) := by
+  have hala : ∀ x ∈ a, ∀ s, Al (a ++ b) (fun q => Oa q ∨ Ob q) x s ↔ Al a Oa x s := by
+    intro x hx s
+    constructor
+    · rintro ⟨q, hq | hq, hpre, hed⟩
+      · rw [reg_append_left (h1 q hq)] at hed; exact ⟨q, hq, hpre, hed⟩
+      · exact absurd hpre (h2 q hq x hx)
+    · rintro ⟨q, hq, hpre, hed⟩
+      exact ⟨q, Or.inl hq, hpre, by rw [reg_append_left (h1 q hq)]; exact hed⟩
+  have halb : ∀ x ∈ b, ∀ s, Al (a ++ b) (fun q => Oa q ∨ Ob q) x s ↔ Al b Ob x s := by
+    intro x hx s
+    constructor
+    · rintro ⟨q, hq | hq, hpre, hed⟩
+      · exact absurd hpre (h1 q hq x hx)
+      · rw [reg_append_right (h2 q hq)] at hed; exact ⟨q, hq, hpre, hed⟩
+    · rintro ⟨q, hq, hpre, hed⟩
+      exact ⟨q, Or.inr hq, hpre, by rw [reg_append_right (h2 q hq)]; exact hed⟩
+  refine ⟨?_, ?_, ?_⟩
+  · rintro q (hq | hq)
+    · rw [reg_append_left (h1 q hq), List.filter_append, filter_under_eq_nil (h1 q hq), List.append_nil]
+      exact ha.til q hq
+    · rw [reg_append_right (h2 q hq), List.filter_append, filter_under_eq_nil (h2 q hq), List.nil_append]
+      exact hb.til q hq
+  · intro x hx s hal
+    rcases List.mem_append.1 hx with hx | hx
+    · exact ha.sub x hx s ((hala x hx s).1 hal)
+    · exact hb.sub x hx s ((halb x hx s).1 hal)
+  · intro x hx s hal
+    rcases List.mem_append.1 hx with hx | hx
+    · exact ha.ini x hx s (fun h' => hal ((hala x hx s).2 h'))
+    · exact hb.ini x hx s (fun h' => hal ((halb x hx s).2 h'))
+
+theorem borderCell_border (h w : Nat) (x : PCell) (s : Side) :
+    (borderCell h w .subRecipe x).border s =
+      if x.edge s = (Rect.mk 0 0 h w).edge s then .subRecipe else x.border s := by
+  cases s <;> rfl
+
+/-- drawing the outline of the node at `P`, whose table is `cs` -/
+theorem BOK.setBorder {cs : List PCell} {O : List Nat → Prop} (hb : BOK cs O) (h w : Nat) (P : List Nat)
+    (hg : RTiles cs ⟨0, 0, h, w⟩) (hu : ∀ x ∈ cs, P <+: x.path) :
+    BOK (cs.map (borderCell h w .subRecipe)) (fun q => q = P ∨ O q) := by
+  have hreg : ∀ q, reg (cs.map (borderCell h w .subRecipe)) q = reg cs q :=
+    fun q => (GEq.map_border cs h w .subRecipe).reg_eq q
+  have hP : reg cs P = ⟨0, 0, h, w⟩ := by
+    simp only [reg]; rw [filter_under_eq_self hu]; exact hg.bbox_eq
+  have hal : ∀ x ∈ cs, ∀ s, Al (cs.map (borderCell h w .subRecipe)) (fun q => q = P ∨ O q)
+      (borderCell h w .subRecipe x) s ↔ (x.edge s = (Rect.mk 0 0 h w).edge s ∨ Al cs O x s) := by
+    intro x hx s
+    have he : (borderCell h w .subRecipe x).edge s = x.edge s := by cases s <;> rfl
+    constructor
+    · rintro ⟨q, hq | hq, hpre, hed⟩
+      · subst hq; rw [hreg, hP, he] at hed; exact Or.inl hed
+      · rw [hreg, he] at hed; exact Or.inr ⟨q, hq, hpre, hed⟩
+    · rintro (hed | ⟨q, hq, hpre, hed⟩)
+      · exact ⟨P, Or.inl rfl, hu x hx, by rw [hreg, hP, he]; exact hed⟩
+      · exact ⟨q, Or.inr hq, hpre, by rw [hreg, he]; exact hed⟩
+  refine ⟨?_, ?_, ?_⟩
+  · rintro q hq
+    rw [hreg, filter_under_map _ (borderCell h w .subRecipe) _ (fun _ => rfl)]
+    refine RTiles.map_geo ?_ (borderCell h w .subRecipe) (fun _ => ⟨rfl, rfl, rfl, rfl⟩)
+    rcases hq with hq | hq
+    · subst hq; rw [hP, filter_under_eq_self hu]; exact hg
+    · exact hb.til q hq
+  · intro y hy s ha
+    obtain ⟨x, hx, rfl⟩ := List.mem_map.1 hy
+    rw [borderCell_border]
+    rcases (hal x hx s).1 ha with h' | h'
+    · rw [if_pos h']
+    · split
+      · rfl
+      · exact hb.sub x hx s h'
+  · intro y hy s ha
+    obtain ⟨x, hx, rfl⟩ := List.mem_map.1 hy
+    have hn := fun h' => ha ((hal x hx s).2 h')
+    rw [borderCell_border, if_neg (fun h' => hn (Or.inl h'))]
+    exact hb.ini x hx s (fun h' => hn (Or.inr h'))
+
+theorem BOK.single (x : PCell) (hx : ∀ s, x.border s = initBorder x.kind s) : BOK [x] (fun _ => False) := by
+  refine ⟨fun q hq => hq.elim, ?_, ?_⟩
+  · rintro y _ s ⟨q, hq, _⟩; exact hq.elim
+  · intro y hy s _
+    simp only [List.mem_singleton] at hy; subst hy; exact hx s
+
+mutual
+/-- the paths around which `layoutAt p root t` draws an outline (mirrors the recursion of `layoutAt`) -/
+def outlSet (p : List Nat) (root : Bool) : Tree → List Nat → Prop
+  | .ingredient .., Q => root = true ∧ Q = p
+  | .reference .., Q => root = true ∧ Q = p
+  | .step _ ins, Q => (root = true ∧ Q = p) ∨ outlSetL p 0 ins Q
+  | .sub b ns _, Q =>
+    if ns.length = 1 then Q = p ∨ outlSet (p ++ [0]) false b Q
+    else Q = p ++ [0] ∨ outlSet (p ++ [0]) false b Q
+def outlSetL (p : List Nat) (i : Nat) : List Tree → List Nat → Prop
+  | [], _ => False
+  | t :: ts, Q => outlSet (p ++ [i]) false t Q ∨ outlSetL p (i + 1) ts Q
+end
+
+mutual
+theorem outlSet_prefix : ∀ (t : Tree) (p : List Nat) (root : Bool) (Q : List Nat), outlSet p root t Q → p <+: Q
+  | .ingredient .., p, root, Q, h => by simp only [outlSet] at h; rw [h.2]; exact List.prefix_refl _
+  | .reference .., p, root, Q, h => by simp only [outlSet] at h; rw [h.2]; exact List.prefix_refl _
+  | .step _ ins, p, root, Q, h => by
+    simp only [outlSet] at h
+    rcases h with h | h
+    · rw [h.2]; exact List.prefix_refl _
+    · obtain ⟨j, _, hj⟩ := outlSetL_prefix ins p 0 Q h
+      exact prefix_of_snoc hj
+  | .sub b ns sh, p, root, Q, h => by
+    simp only [outlSet] at h
+    split at h
+    · rcases h with h | h
+      · rw [h]; exact List.prefix_refl _
+      · exact prefix_of_snoc (outlSet_prefix b _ _ Q h)
+    · rcases h with h | h
+      · rw [h]; exact List.prefix_append _ _
+      · exact prefix_of_snoc (outlSet_prefix b _ _ Q h)
+theorem outlSetL_prefix : ∀ (ts : List Tree) (p : List Nat) (i : Nat) (Q : List Nat), outlSetL p i ts Q →
+    ∃ j, i ≤ j ∧ p ++ [j] <+: Q
+  | [], _, _, _, h => by simp [outlSetL] at h
+  | a :: as, p, i, Q, h => by
+    simp only [outlSetL] at h
+    rcases h with h | h
+    · exact ⟨i, Nat.le_refl _, outlSet_prefix a _ _ Q h⟩
+    · obtain ⟨j, h1, h2⟩ := outlSetL_prefix as p (i + 1) Q h
+      exact ⟨j, by omega, h2⟩
+end
+
+theorem pad_under {T : Tbl} {P : List Nat} (h : ∀ x ∈ T.cells, P <+: x.path) (w : Nat) :
+    ∀ x ∈ (pad T w).cells, P <+: x.path := by
+  unfold pad
+  split
+  · exact h
+  · intro y hy
+    obtain ⟨x, hx, rfl⟩ := List.mem_map.1 hy
+    rw [(padCell_geo' _ _ x).1]; exact h x hx
+
+theorem BOK.nil : BOK [] (fun _ => False) :=
+  ⟨fun _ hq => hq.elim, fun _ hx => by simp at hx, fun _ hx => by simp at hx⟩
+
+theorem not_prefix_of_snoc_ne {p Q y : List Nat} {i k : Nat} (h1 : p ++ [i] <+: Q) (h2 : p ++ [k] <+: y)
+    (hne : i ≠ k) : ¬ Q <+: y := fun h => hne (prefix_snoc_inj (List.IsPrefix.trans h1 h) h2)
+
+mutual
+theorem layoutAt_bok : ∀ (t : Tree) (p : List Nat) (root : Bool), wf t = true →
+    BOK (layoutAt p root t).cells (outlSet p root t)
+  | .ingredient .., p, root, _ => by
+    have h0 : BOK [({ row := 0, col := 0, rows := 1, cols := 1, path := p, kind := .ingredient } : PCell)]
+        (fun _ => False) := BOK.single _ (by intro s; cases s <;> rfl)
+    cases root
+    · simp only [layoutAt, Bool.false_eq_true, if_false]
+      exact h0.congr (by simp [outlSet])
+    · simp only [layoutAt, if_true]
+      exact (h0.setBorder 1 1 p (Good.single _ 1 1 (by omega) (by omega) (by simp))
+        (by simp)).congr (by simp [outlSet])
+  | .reference .., p, root, _ => by
+    have h0 : BOK [({ row := 0, col := 0, rows := 1, cols := 1, path := p, kind := .reference } : PCell)]
+        (fun _ => False) := BOK.single _ (by intro s; cases s <;> rfl)
+    cases root
+    · simp only [layoutAt, Bool.false_eq_true, if_false]
+      exact h0.congr (by simp [outlSet])
+    · simp only [layoutAt, if_true]
+      exact (h0.setBorder 1 1 p (Good.single _ 1 1 (by omega) (by omega) (by simp))
+        (by simp)).congr (by simp [outlSet])
+  | .step d ins, p, root, hw => by
+    have hg := layoutAt_good (.step d ins) p false hw
+    have hu := layoutAt_under (.step d ins) p false
+    simp only [wf, Bool.and_eq_true] at hw
+    have hs := stack_bok ins p 0 (maxWidth (layoutInputs p 0 ins)) hw.2
+    have hc : BOK [shiftRight (vstack ((layoutInputs p 0 ins).map (pad · (maxWidth (layoutInputs p 0 ins))))).w
+        ({ row := 0, col := 0, rows := (vstack ((layoutInputs p 0 ins).map (pad · (maxWidth (layoutInputs p 0 ins))))).h, cols := 1, path := p, kind := .step } : PCell)] (fun _ => False) :=
+      BOK.single _ (by intro s; cases s <;> rfl)
+    have hall := hs.append hc
+      (by
+        intro Q hQ y hy
+        simp only [List.mem_singleton] at hy; subst hy
+        obtain ⟨j, _, hj⟩ := outlSetL_prefix ins p 0 Q hQ
+        intro h'
+        exact prefix_snoc_ne (List.IsPrefix.trans hj h') rfl)
+      (by intro Q hQ; exact hQ.elim)
+    simp only [layoutAt, Bool.false_eq_true, if_false] at hg hu
+    cases root
+    · simp only [layoutAt, Bool.false_eq_true, if_false]
+      exact hall.congr (by simp [outlSet])
+    · simp only [layoutAt, if_true]
+      exact (hall.setBorder _ _ p hg hu).congr (by intro Q; simp only [outlSet, or_false, true_and])
+  | .sub b ns sh, p, root, hw => by
+    simp only [wf] at hw
+    have hb := layoutAt_bok b (p ++ [0]) false hw
+    have hgb := layoutAt_good b (p ++ [0]) false hw
+    have hub := layoutAt_under b (p ++ [0]) false
+    simp only [layoutAt]
+    split
+    · rename_i hn
+      split
+      · -- titled
+        have hb' := hb.shiftDown 1
+        have hc : BOK [({ row := 0, col := 0, rows := 1, cols := (layoutAt (p ++ [0]) false b).w, kind := .header, path := p } : PCell)] (fun _ => False) := BOK.single _ (by intro s; cases s <;> rfl)
+        have hall := hc.append hb' (by intro Q hQ; exact hQ.elim)
+          (by
+            intro Q hQ y hy
+            simp only [List.mem_singleton] at hy; subst hy
+            intro h'
+            exact prefix_snoc_ne (List.IsPrefix.trans (outlSet_prefix b _ _ Q hQ) h') rfl)
+        have hg : Good (vcat ⟨1, (layoutAt (p ++ [0]) false b).w,
+            [{ row := 0, col := 0, rows := 1, cols := (layoutAt (p ++ [0]) false b).w, kind := .header, path := p }]⟩ (layoutAt (p ++ [0]) false b)) :=
+          Good.vcat (Good.single _ 1 _ (by omega) hgb.ne.2 (by simp)) hgb rfl
+        refine (hall.setBorder _ _ p hg ?_).congr (by intro Q; simp only [outlSet, hn, if_true, false_or])
+        intro x hx
+        rcases List.mem_append.1 hx with hx | hx
+        · simp only [List.mem_singleton] at hx; subst hx; exact List.prefix_refl _
+        · obtain ⟨y, hy, rfl⟩ := List.mem_map.1 hx
+          exact prefix_of_snoc (hub y hy)
+      · -- untitled
+        exact (hb.setBorder _ _ p hgb (fun x hx => prefix_of_snoc (hub x hx))).congr
+          (by intro Q; simp only [outlSet, hn, if_true])
+    · rename_i hn
+      have hb' := hb.setBorder _ _ (p ++ [0]) hgb hub
+      have hc : BOK [shiftRight (setBorder (layoutAt (p ++ [0]) false b) .subRecipe).w
+          ({ row := 0, col := 0, rows := (layoutAt (p ++ [0]) false b).h, cols := 1, path := p, kind := .outputs, bt := .none, br := .none, bb := .none } : PCell)] (fun _ => False) :=
+        BOK.single _ (by intro s; cases s <;> rfl)
+      refine (hb'.append hc ?_ (by intro Q hQ; exact hQ.elim)).congr
+        (by intro Q; simp only [outlSet, hn, if_false, or_false])
+      intro Q hQ y hy
+      simp only [List.mem_singleton] at hy; subst hy
+      intro h'
+      have : p ++ [0] <+: Q := by
+        rcases hQ with hQ | hQ
+        · rw [hQ]; exact List.prefix_refl _
+        · exact outlSet_prefix b _ _ Q hQ
+      exact prefix_snoc_ne (List.IsPrefix.trans this h') rfl
+theorem stack_bok : ∀ (ts : List Tree) (p : List Nat) (i0 w : Nat), wfList ts = true →
+    BOK (vstack ((layoutInputs p i0 ts).map (pad · w))).cells (outlSetL p i0 ts)
+  | [], _, _, _, _ => by
+    simp only [layoutInputs, List.map_nil, vstack]
+    exact BOK.nil.congr (by simp [outlSetL])
+  | a :: as, p, i0, w, hw => by
+    simp only [wfList, Bool.and_eq_true] at hw
+    have ha := (layoutAt_bok a (p ++ [i0]) false hw.1).pad (layoutAt_good a (p ++ [i0]) false hw.1) w
+    have hs := (stack_bok as p (i0 + 1) w hw.2).shiftDown (pad (layoutAt (p ++ [i0]) false a) w).h
+    have hua := pad_under (layoutAt_under a (p ++ [i0]) false) w
+    have hus := stack_under as p (i0 + 1) w
+    simp only [layoutInputs, List.map_cons, vstack_cons, vcat]
+    refine (ha.append hs ?_ ?_).congr (by intro Q; simp only [outlSetL])
+    · intro Q hQ y hy
+      obtain ⟨z, hz, rfl⟩ := List.mem_map.1 hy
+      obtain ⟨k, hk1, hk2⟩ := hus z hz
+      exact not_prefix_of_snoc_ne (outlSet_prefix a _ _ Q hQ) (y := (shiftDown _ z).path) hk2 (by omega)
+    · intro Q hQ x hx
+      obtain ⟨k, hk1, hk2⟩ := outlSetL_prefix as p (i0 + 1) Q hQ
+      exact not_prefix_of_snoc_ne hk2 (hua x hx) (by omega)
+end
+
+-- ---------------------------------------------------------------- outlined nodes, in terms of `Tree.at?`
+/-- the outlined nodes of `layoutAt _ root t`, as paths relative to `t` -/
+def outl (root : Bool) (t : Tree) (q : List Nat) : Prop :=
+  (q = [] ∧ root = true ∧ ∀ b ns sh, t = .sub b ns sh → ns.length = 1) ∨
+  (∃ b ns sh, t.at? q = some (.sub b ns sh) ∧ ns.length = 1) ∨
+  (∃ q' b ns sh, q = q' ++ [0] ∧ t.at? q' = some (.sub b ns sh) ∧ ns.length ≠ 1)
+
+theorem at?_nil (t : Tree) : t.at? [] = some t := by cases t <;> rfl
+theorem at?_step_cons (d : SVS) (ins : List Tree) (i : Nat) (r : List Nat) (c : Tree) (h : ins[i]? = some c) :
+    (Tree.step d ins).at? (i :: r) = c.at? r := by simp [Tree.at?, h]
+theorem at?_sub_zero (b : Tree) (ns : List SVS) (sh : Bool) (r : List Nat) :
+    (Tree.sub b ns sh).at? (0 :: r) = b.at? r := by simp [Tree.at?]
+
+theorem snoc_eq_cons {q' : List Nat} {i : Nat} {r : List Nat} (h : i :: r = q' ++ [0]) :
+    (q' = [] ∧ i = 0 ∧ r = []) ∨ (∃ r', q' = i :: r' ∧ r = r' ++ [0]) := by
+  cases q' with
+  | nil => simp at h; exact Or.inl ⟨rfl, h.1, h.2⟩
+  | cons a q'' => simp at h; exact Or.inr ⟨q'', by rw [h.1], h.2⟩
+
+theorem outl_nil (root : Bool) (t : Tree) :
+    outl root t [] ↔ (root = true ∧ ∀ b ns sh, t = .sub b ns sh → ns.length = 1) ∨
+      (∃ b ns sh, t = .sub b ns sh ∧ ns.length = 1) := by
+  simp only [outl, at?_nil, Option.some.injEq, true_and]
+  constructor
+  · rintro (h | h | ⟨q', _, _, _, h, _⟩)
+    · exact Or.inl h
+    · exact Or.inr h
+    · simp at h
+  · rintro (h | h)
+    · exact Or.inl h
+    · exact Or.inr (Or.inl h)
+
+theorem outl_cons_step (root : Bool) (d : SVS) (ins : List Tree) (i : Nat) (r : List Nat) :
+    outl root (.step d ins) (i :: r) ↔ ∃ c, ins[i]? = some c ∧ outl false c r := by
+  constructor
+  · rintro (h | ⟨b, ns, sh, h, hn⟩ | ⟨q', b, ns, sh, hq, h, hn⟩)
+    · simp at h
+    · rcases at?_cons _ i r _ h with ⟨d', ins', c, e, hc, hr⟩ | ⟨_, _, _, e, _⟩
+      · cases e; exact ⟨c, hc, Or.inr (Or.inl ⟨b, ns, sh, hr, hn⟩)⟩
+      · cases e
+    · rcases snoc_eq_cons hq with ⟨rfl, _, _⟩ | ⟨r', rfl, rfl⟩
+      · rw [at?_nil] at h; cases h
+      · rcases at?_cons _ i r' _ h with ⟨d', ins', c, e, hc, hr⟩ | ⟨_, _, _, e, _⟩
+        · cases e; exact ⟨c, hc, Or.inr (Or.inr ⟨r', b, ns, sh, rfl, hr, hn⟩)⟩
+        · cases e
+  · rintro ⟨c, hc, h | ⟨b, ns, sh, h, hn⟩ | ⟨q', b, ns, sh, hq, h, hn⟩⟩
+    · simp at h
+    · exact Or.inr (Or.inl ⟨b, ns, sh, by rw [at?_step_cons d ins i r c hc]; exact h, hn⟩)
+    · subst hq
+      exact Or.inr (Or.inr ⟨i :: q', b, ns, sh, rfl, by rw [at?_step_cons d ins i q' c hc]; exact h, hn⟩)
+
+theorem outl_cons_sub (root : Bool) (b : Tree) (ns : List SVS) (sh : Bool) (i : Nat) (r : List Nat) :
+    outl root (.sub b ns sh) (i :: r) ↔ i = 0 ∧ ((r = [] ∧ ns.length ≠ 1) ∨ outl false b r) := by
+  constructor
+  · rintro (h | ⟨b', ns', sh', h, hn⟩ | ⟨q', b', ns', sh', hq, h, hn⟩)
+    · simp at h
+    · rcases at?_cons _ i r _ h with ⟨_, _, _, e, _⟩ | ⟨b2, ns2, sh2, e, hi, hr⟩
+      · cases e
+      · cases e; exact ⟨hi, Or.inr (Or.inr (Or.inl ⟨b', ns', sh', hr, hn⟩))⟩
+    · rcases snoc_eq_cons hq with ⟨rfl, hi, hr⟩ | ⟨r', rfl, rfl⟩
+      · rw [at?_nil] at h; cases h; exact ⟨hi, Or.inl ⟨hr, hn⟩⟩
+      · rcases at?_cons _ i r' _ h with ⟨_, _, _, e, _⟩ | ⟨b2, ns2, sh2, e, hi, hr⟩
+        · cases e
+        · cases e; exact ⟨hi, Or.inr (Or.inr (Or.inr ⟨r', b', ns', sh', rfl, hr, hn⟩))⟩
+  · rintro ⟨rfl, ⟨rfl, hn⟩ | h | ⟨b', ns', sh', h, hn⟩ | ⟨q', b', ns', sh', hq, h, hn⟩⟩
+    · exact Or.inr (Or.inr ⟨[], b, ns, sh, rfl, at?_nil _, hn⟩)
+    · simp at h
+    · exact Or.inr (Or.inl ⟨b', ns', sh', by rw [at?_sub_zero]; exact h, hn⟩)
+    · subst hq
+      exact Or.inr (Or.inr ⟨0 :: q', b', ns', sh', rfl, by rw [at?_sub_zero]; exact h, hn⟩)
+
+theorem outl_cons_leaf (root : Bool) (t : Tree) (i : Nat) (r : List Nat)
+    (ht : ∀ d ins, t ≠ .step d ins) (ht' : ∀ b ns sh, t ≠ .sub b ns sh) : ¬ outl root t (i :: r) := by
+  rintro (h | ⟨b, ns, sh, h, hn⟩ | ⟨q', b, ns, sh, hq, h, hn⟩)
+  · simp at h
+  · rcases at?_cons _ i r _ h with ⟨d, ins, _, e, _⟩ | ⟨b2, ns2, sh2, e, _⟩
+    · exact ht d ins e
+    · exact ht' _ _ _ e
+  · rcases snoc_eq_cons hq with ⟨rfl, _, _⟩ | ⟨r', rfl, rfl⟩
+    · rw [at?_nil] at h; cases h; exact ht' _ _ _ rfl
+    · rcases at?_cons _ i r' _ h with ⟨d, ins, _, e, _⟩ | ⟨b2, ns2, sh2, e, _⟩
+      · exact ht d ins e
+      · exact ht' _ _ _ e
+
+theorem outl_nil_leaf (root : Bool) (t : Tree) (ht' : ∀ b ns sh, t ≠ .sub b ns sh) :
+    outl root t [] ↔ root = true := by
+  rw [outl_nil]
+  constructor
+  · rintro (h | ⟨b, ns, sh, e, _⟩)
+    · exact h.1
+    · exact absurd e (ht' _ _ _)
+  · intro h; exact Or.inl ⟨h, fun b ns sh e => absurd e (ht' _ _ _)⟩
+
+mutual
+theorem outlSet_iff : ∀ (t : Tree) (p : List Nat) (root : Bool) (Q : List Nat),
+    outlSet p root t Q ↔ ∃ q, Q = p ++ q ∧ outl root t q
+  | .ingredient d q0, p, root, Q => by
+    simp only [outlSet]
+    have hl := outl_nil_leaf root (.ingredient d q0) (by intro _ _ _ e; cases e)
+    constructor
+    · rintro ⟨hr, rfl⟩; exact ⟨[], by simp, hl.2 hr⟩
+    · rintro ⟨q, rfl, h⟩
+      cases q with
+      | nil => exact ⟨hl.1 h, by simp⟩
+      | cons i r =>
+        exact absurd h (outl_cons_leaf _ _ i r (by intro _ _ e; cases e) (by intro _ _ _ e; cases e))
+  | .reference s0 i0 a0, p, root, Q => by
+    simp only [outlSet]
+    have hl := outl_nil_leaf root (.reference s0 i0 a0) (by intro _ _ _ e; cases e)
+    constructor
+    · rintro ⟨hr, rfl⟩; exact ⟨[], by simp, hl.2 hr⟩
+    · rintro ⟨q, rfl, h⟩
+      cases q with
+      | nil => exact ⟨hl.1 h, by simp⟩
+      | cons i r =>
+        exact absurd h (outl_cons_leaf _ _ i r (by intro _ _ e; cases e) (by intro _ _ _ e; cases e))
+  | .step d ins, p, root, Q => by
+    simp only [outlSet, outlSetL_iff ins p 0 Q]
+    have hl := outl_nil_leaf root (.step d ins) (by intro _ _ _ e; cases e)
+    constructor
+    · rintro (⟨hr, rfl⟩ | ⟨j, c, r, hc, rfl, h⟩)
+      · exact ⟨[], by simp, hl.2 hr⟩
+      · exact ⟨(0 + j) :: r, rfl, (outl_cons_step _ _ _ _ _).2 ⟨c, by simpa using hc, h⟩⟩
+    · rintro ⟨q, rfl, h⟩
+      cases q with
+      | nil => exact Or.inl ⟨hl.1 h, by simp⟩
+      | cons i r =>
+        obtain ⟨c, hc, h'⟩ := (outl_cons_step _ _ _ _ _).1 h
+        exact Or.inr ⟨i, c, r, hc, by simp, h'⟩
+  | .sub b ns sh, p, root, Q => by
+    simp only [outlSet, outlSet_iff b (p ++ [0]) false Q]
+    split
+    · rename_i hn
+      constructor
+      · rintro (rfl | ⟨r, rfl, h⟩)
+        · exact ⟨[], by simp, (outl_nil _ _).2 (Or.inr ⟨b, ns, sh, rfl, hn⟩)⟩
+        · exact ⟨0 :: r, by simp, (outl_cons_sub _ _ _ _ _ _).2 ⟨rfl, Or.inr h⟩⟩
+      · rintro ⟨q, rfl, h⟩
+        cases q with
+        | nil => left; simp
+        | cons i r =>
+          right
+          obtain ⟨rfl, h' | h'⟩ := (outl_cons_sub _ _ _ _ _ _).1 h
+          · exact absurd hn h'.2
+          · exact ⟨r, by simp, h'⟩
+    · rename_i hn
+      constructor
+      · rintro (rfl | ⟨r, rfl, h⟩)
+        · exact ⟨[0], rfl, (outl_cons_sub _ _ _ _ _ _).2 ⟨rfl, Or.inl ⟨rfl, hn⟩⟩⟩
+        · exact ⟨0 :: r, by simp, (outl_cons_sub _ _ _ _ _ _).2 ⟨rfl, Or.inr h⟩⟩
+      · rintro ⟨q, rfl, h⟩
+        cases q with
+        | nil =>
+          exfalso
+          rcases (outl_nil _ _).1 h with h | ⟨b', ns', sh', e, hn'⟩
+          · exact hn (h.2 b ns sh rfl)
+          · cases e; exact hn hn'
+        | cons i r =>
+          obtain ⟨rfl, h' | h'⟩ := (outl_cons_sub _ _ _ _ _ _).1 h
+          · left; rw [h'.1]
+          · right; exact ⟨r, by simp, h'⟩
+theorem outlSetL_iff : ∀ (ts : List Tree) (p : List Nat) (i : Nat) (Q : List Nat),
+    outlSetL p i ts Q ↔ ∃ j c r, ts[j]? = some c ∧ Q = p ++ (i + j) :: r ∧ outl false c r
+  | [], _, _, _ => by simp [outlSetL]
+  | a :: as, p, i, Q => by
+    simp only [outlSetL, outlSet_iff a (p ++ [i]) false Q, outlSetL_iff as p (i + 1) Q]
+    constructor
+    · rintro (⟨r, rfl, h⟩ | ⟨j, c, r, hc, rfl, h⟩)
+      · exact ⟨0, a, r, rfl, by simp, h⟩
+      · exact ⟨j + 1, c, r, by simpa using hc, by rw [show i + 1 + j = i + (j + 1) by omega], h⟩
+    · rintro ⟨j, c, r, hc, rfl, h⟩
+      cases j with
+      | zero =>
+        simp only [List.getElem?_cons_zero, Option.some.injEq] at hc; subst hc
+        exact Or.inl ⟨r, by simp, h⟩
+      | succ j =>
+        exact Or.inr ⟨j, c, r, by simpa using hc, by rw [show i + 1 + j = i + (j + 1) by omega], h⟩
+end
+
+/-- the borders of the whole layout -/
+theorem layout_borders' (t : Tree) (hw : wf t = true) : BOK (layout t).cells (outl true t) :=
+  (layoutAt_bok t [] true hw).congr (fun Q => by
+    rw [outlSet_iff]
+    constructor
+    · rintro ⟨q, rfl, h⟩; simpa using h
+    · intro h; exact ⟨Q, by simp, h⟩)
+
+mutual
+/-- only sub recipes with an outputs column get an `outputs` cell -/
+theorem drawn_outputs : ∀ (t : Tree) (p P : List Nat), (P, CellKind.outputs) ∈ drawn p t →
+    ∃ q b ns sh, P = p ++ q ∧ t.at? q = some (.sub b ns sh) ∧ ns.length ≠ 1
+  | .ingredient .., p, P, h => by simp [drawn] at h
+  | .reference .., p, P, h => by simp [drawn] at h
+  | .step d ins, p, P, h => by
+    simp only [drawn, List.mem_append, List.mem_singleton, Prod.mk.injEq, reduceCtorEq, and_false, or_false] at h
+    obtain ⟨j, c, q, b, ns, sh, hc, rfl, hq, hn⟩ := drawnInputs_outputs ins p 0 P h
+    exact ⟨(0 + j) :: q, b, ns, sh, rfl, by rw [at?_step_cons d ins _ q c (by simpa using hc)]; exact hq, hn⟩
+  | .sub b ns sh, p, P, h => by
+    simp only [drawn] at h
+    split at h
+    · rename_i hn
+      have h' : (P, CellKind.outputs) ∈ drawn (p ++ [0]) b := by
+        rcases List.mem_append.1 h with h | h
+        · split at h <;> simp at h
+        · exact h
+      obtain ⟨q, b', ns', sh', rfl, hq, hn'⟩ := drawn_outputs b (p ++ [0]) P h'
+      exact ⟨0 :: q, b', ns', sh', by simp, by rw [at?_sub_zero]; exact hq, hn'⟩
+    · rename_i hn
+      rcases List.mem_append.1 h with h | h
+      · obtain ⟨q, b', ns', sh', rfl, hq, hn'⟩ := drawn_outputs b (p ++ [0]) P h
+        exact ⟨0 :: q, b', ns', sh', by simp, by rw [at?_sub_zero]; exact hq, hn'⟩
+      · simp only [List.mem_singleton, Prod.mk.injEq, and_true] at h
+        exact ⟨[], b, ns, sh, by simp [h], at?_nil _, hn⟩
+theorem drawnInputs_outputs : ∀ (ts : List Tree) (p : List Nat) (i : Nat) (P : List Nat),
+    (P, CellKind.outputs) ∈ drawnInputs p i ts →
+    ∃ j c q b ns sh, ts[j]? = some c ∧ P = p ++ (i + j) :: q ∧ c.at? q = some (.sub b ns sh) ∧ ns.length ≠ 1
+  | [], _, _, _, h => by simp [drawnInputs] at h
+  | a :: as, p, i, P, h => by
+    simp only [drawnInputs, List.mem_append] at h
+    rcases h with h | h
+    · obtain ⟨q, b, ns, sh, rfl, hq, hn⟩ := drawn_outputs a (p ++ [i]) P h
+      exact ⟨0, a, q, b, ns, sh, rfl, by simp, hq, hn⟩
+    · obtain ⟨j, c, q, b, ns, sh, hc, rfl, hq, hn⟩ := drawnInputs_outputs as p (i + 1) P h
+      exact ⟨j + 1, c, q, b, ns, sh, by simpa using hc, by rw [show i + 1 + j = i + (j + 1) by omega], hq, hn⟩
+end
+
+theorem outputs_cell_at (t : Tree) (x : PCell) (hx : x ∈ (layout t).cells) (hk : x.kind = .outputs) :
+    ∃ b ns sh, t.at? x.path = some (.sub b ns sh) ∧ ns.length ≠ 1 := by
+  have : (x.path, CellKind.outputs) ∈ drawn [] t := by
+    rw [← layoutAt_pk t [] true, ← hk]
+    exact List.mem_map.2 ⟨x, hx, rfl⟩
+  obtain ⟨q, b, ns, sh, e, hq, hn⟩ := drawn_outputs t [] x.path this
+  simp only [List.nil_append] at e
+  exact ⟨b, ns, sh, e ▸ hq, hn⟩
+
 end RG
